@@ -16,7 +16,8 @@ ASSUMPTIONS = [
     "exact optimiser: the library's SortingSubsetOptimizationAlgorithm injected as soalgo; multi-objective: a stub moalgo returning an arbitrary symbolic front (the pymoo NSGA-II run itself is outside)",
 ]
 STUBS = ["FirstPickRNG (rotations) as rng / global_prng of the configuration classes", "stub moalgo (arbitrary front)"]
-BOUNDS = {"quick": dict(ncross="<=2", nparent="<=2", candidates="<=4"), "thorough": dict(ncross="<=3", nparent="<=2 (3 for the mate map)", candidates="<=4")}
+BOUNDS = {"quick": dict(ncross="<=2", nparent="<=3 (one 1x5 table)", candidates="<=4", shuffles="rotation classes + 1 enumerated start arrangement of the 2x3 table"),
+          "thorough": dict(ncross="<=3", nparent="<=3 (one 1x5 table)", candidates="<=4", shuffles="rotation classes + 30 enumerated start arrangements of the 2x3 table")}
 OUTSIDE = ["protocols whose problem() needs pandas phenotypes or the GA optimisers", "row order of the configuration", "OCS/UC/OHV protocols' problem construction (their criteria are C05/C12/C18)"]
 
 CFG = "pybrops.breed.prot.sel.cfg."
